@@ -707,72 +707,6 @@ func uniq(s []string) []string {
 	return out
 }
 
-// S13: the memory-outermost axis that AP.S uses to decide whether a slice stays contiguous is
-// axis 0 for row-major (and vector) patterns and the LAST axis of the pattern for
-// column-major ones. A slice along any other axis leaves gaps and must be flagged
-// NonContiguous, otherwise later operations skip the iterator (C02 contiguity clause, C16).
-func S13(rc *RC) {
-	rc.S.Declare("S13", "contiguity flagging in AP.S: the outermost axis is 0 for row-major/vector patterns and len(shape)-1 for column-major ones; a non-nil slice on any other axis, or a step > 1, sets NonContiguous", 1)
-	fi := anchor(rc, "S13", "tensor.(*AP).S")
-	if fi == nil {
-		return
-	}
-	pos := rc.P.Pos(fi.Decl.Pos())
-	_, tree := sCanon(rc, fi)
-	var bad []string
-	okOuter := false
-	for _, n := range flatten(tree) {
-		if n.Kind != "if" {
-			continue
-		}
-		thenT, elseT := strings.TrimSpace(ir.Render(n.Kids)), strings.TrimSpace(ir.Render(n.Else))
-		if !strings.HasPrefix(thenT, "%outerDim = ") && !strings.HasPrefix(elseT, "%outerDim = ") {
-			continue
-		}
-		f := normAtomsGeneral(ir.ParseBool(n.Head))
-		rowOrVec := normAtomsGeneral(ir.ParseBool("(!$r.o.IsColMajor() || $r.IsVector())"))
-		// then-branch must be exactly the row-major-or-vector case
-		if ir.Implies([]*ir.BExpr{f}, rowOrVec) && ir.Implies([]*ir.BExpr{rowOrVec}, f) {
-			if thenT == "%outerDim = 0" && (elseT == "%outerDim = (len($r.shape) - 1)" || elseT == "%outerDim = ($r.Dims() - 1)" || elseT == "%outerDim = ($r.shape.Dims() - 1)") {
-				okOuter = true
-			} else {
-				bad = append(bad, fmt.Sprintf("outermost axis is %q for row-major/vector and %q otherwise; want 0 and the last axis of the pattern", thenT, elseT))
-			}
-		} else {
-			bad = append(bad, "the outermost axis is not selected by (row-major or vector): "+n.Head)
-		}
-	}
-	if !okOuter && len(bad) == 0 {
-		bad = append(bad, "no selection of the outermost axis by data order found")
-	}
-	// the flagging condition
-	flag := false
-	for _, n := range flatten(tree) {
-		if n.Kind == "if" && strings.Contains(ir.Render(n.Kids), "MakeDataOrder(%order, NonContiguous)") {
-			want := "(((%sl != nil) && (!$r.IsVector() && (%i != %outerDim))) || (%step > 1))"
-			if n.Head == want {
-				flag = true
-			} else {
-				g := normAtomsGeneral(ir.ParseBool(n.Head))
-				w := normAtomsGeneral(ir.ParseBool(want))
-				if ir.Implies([]*ir.BExpr{w}, g) {
-					flag = true // flags at least as often
-				} else {
-					bad = append(bad, "NonContiguous is set under "+n.Head+", which misses cases of "+want)
-				}
-			}
-		}
-	}
-	if !flag && len(bad) == 0 {
-		bad = append(bad, "no NonContiguous flagging found")
-	}
-	if len(bad) > 0 {
-		rc.S.Viol("S13", "tensor.(*AP).S#contiguity", pos, strings.Join(bad, "; ")).Sig = strings.Join(bad, "; ")
-	} else {
-		rc.S.Ok("S13", "tensor.(*AP).S#contiguity", pos, "outermost axis by data order; NonContiguous on inner-axis slices and steps")
-	}
-}
-
 // S11: the order flag and the strides move together. A function that can flip the
 // column-major bit of an access pattern's data order (toggleColMajor, or-ing/assigning
 // ColMajor) must, in the same function, recompute or replace that pattern's strides.
@@ -859,5 +793,248 @@ func S10(rc *RC) {
 		rc.S.Viol("S10", "CalcStrides~CalcStridesColMajor", r.pos, strings.Join(bad, "; ")).Sig = strings.Join(bad, "; ")
 	} else {
 		rc.S.Ok("S10", "CalcStrides~CalcStridesColMajor", r.pos, "same recurrence, mirrored direction")
+	}
+}
+
+// S12: the contiguity marker of the access-pattern slice calculator. Reshape's refusal of
+// non-contiguous views, RequiresIterator and every raw fast path key on the NonContiguous
+// flag that AP.S computes; a sliced view that is not marked is read as if it were dense.
+// Names are bound structurally (loop index, the slice handed to SliceDetails, its step
+// result, the outermost-axis variable, the order variable handed to MakeAP), so the rule is
+// insensitive to renaming; it demands only that the marking happens in *at least* the cases
+// below (marking more is conservative and allowed).
+func S12(rc *RC) {
+	rc.S.Declare("S12", "contiguity marker: in AP.S the result is marked NonContiguous at least when an axis other than the outermost one (axis 0 for row-major or vectors, the last axis otherwise) of a non-vector is sliced, or a step > 1 is taken; the marked order is the one handed to MakeAP", 2)
+	key := "tensor.(*AP).S"
+	fi := anchor(rc, "S12", key)
+	if fi == nil {
+		return
+	}
+	pos := rc.P.Pos(fi.Decl.Pos())
+	_, tree := sCanon(rc, fi)
+	var loop *ir.Node
+	var sl, step, idx string
+	for _, lp := range ir.FindLoops(tree) {
+		for _, n := range lp.Kids {
+			if n.Kind == "tuple" && strings.Contains(n.Value, "SliceDetails(") && len(n.Targets) == 4 {
+				loop = lp
+				step = n.Targets[2]
+				v := n.Value[strings.Index(n.Value, "SliceDetails(")+len("SliceDetails("):]
+				if c := strings.Index(v, ","); c > 0 {
+					sl = v[:c]
+				}
+			}
+		}
+		if loop != nil {
+			break
+		}
+	}
+	if loop == nil || sl == "" {
+		rc.S.Undec("S12", key+"#marker", pos, "no axis loop calling SliceDetails(slice, size)")
+		return
+	}
+	if k := strings.LastIndex(loop.Head, "; "); k >= 0 {
+		if e := strings.Index(loop.Head[k+2:], " = "); e > 0 {
+			idx = loop.Head[k+2:][:e]
+		}
+	}
+	// outermost-axis variable: assigned 0 under (row-major or vector), len(shape)-1 otherwise
+	outer, outerOK := "", false
+	for _, n := range tree {
+		if n.Kind != "if" || len(n.Kids) != 1 || len(n.Else) != 1 {
+			continue
+		}
+		a, b := n.Kids[0], n.Else[0]
+		if (a.Kind == "let" || a.Kind == "store") && (b.Kind == "let" || b.Kind == "store") && a.Target == b.Target {
+			outer = a.Target
+			cond := normAtomsGeneral(ir.ParseBool(n.Head))
+			want := normAtomsGeneral(ir.ParseBool("(!$r.o.IsColMajor() || $r.IsVector())"))
+			last := b.Value == "(len($r.shape) - 1)" || b.Value == "($r.Dims() - 1)" || b.Value == "($r.shape.Dims() - 1)"
+			if ir.Implies([]*ir.BExpr{cond}, want) && ir.Implies([]*ir.BExpr{want}, cond) && a.Value == "0" && last {
+				outerOK = true
+			}
+		}
+	}
+	// the marker statements and their guards
+	var guards []*ir.BExpr
+	orderVar := ""
+	var walk func(ns []*ir.Node, g []*ir.BExpr)
+	walk = func(ns []*ir.Node, g []*ir.BExpr) {
+		for _, n := range ns {
+			switch n.Kind {
+			case "let", "store":
+				if strings.Contains(n.Value, "MakeDataOrder(") && strings.Contains(n.Value, "NonContiguous") {
+					orderVar = n.Target
+					var c *ir.BExpr = ir.BConst(true)
+					for _, x := range g {
+						c = ir.BAnd(c, x)
+					}
+					guards = append(guards, c)
+				}
+			case "if":
+				h := ir.ParseBool(n.Head)
+				walk(n.Kids, append(append([]*ir.BExpr{}, g...), h))
+				walk(n.Else, append(append([]*ir.BExpr{}, g...), ir.BNot(h)))
+			}
+		}
+	}
+	walk(loop.Kids, nil)
+	if len(guards) == 0 {
+		rc.S.Viol("S12", key+"#marker", pos, "the axis loop never marks the result NonContiguous").Sig = "no marker"
+		return
+	}
+	if outer == "" || !outerOK {
+		rc.S.Viol("S12", key+"#outer-axis", pos, fmt.Sprintf("the outermost axis (%s) is not 0 for row-major tensors and vectors and len(shape)-1 otherwise", outer)).Sig = "outer axis"
+	} else {
+		rc.S.Ok("S12", key+"#outer-axis", pos, outer+" = 0 if row-major or vector, else len(shape)-1")
+	}
+	var marked *ir.BExpr = ir.BConst(false)
+	for _, g := range guards {
+		marked = ir.BOr(marked, g)
+	}
+	ren := func(s string) string {
+		s = ir.ReplaceWord(s, sl, "SL")
+		s = ir.ReplaceWord(s, step, "STEP")
+		s = ir.ReplaceWord(s, idx, "I")
+		if outer != "" {
+			s = ir.ReplaceWord(s, outer, "OUTER")
+		}
+		return s
+	}
+	markedS := ren(marked.String())
+	goal := ir.ParseBool("(((SL != nil) && (!$r.IsVector() && (I != OUTER))) || (STEP > 1))")
+	got := ir.ParseBool(markedS)
+	var bad []string
+	if !ir.Implies([]*ir.BExpr{goal}, got) {
+		bad = append(bad, fmt.Sprintf("marked only when %s; required at least when %s", markedS, goal.String()))
+	}
+	// the marked order reaches MakeAP
+	reaches := false
+	for _, l := range renderFlat2(tree) {
+		if strings.Contains(l, "MakeAP(") && orderVar != "" && strings.Contains(l, ", "+orderVar+",") {
+			reaches = true
+		}
+	}
+	if !reaches {
+		bad = append(bad, "the marked order "+orderVar+" is not the data order handed to MakeAP")
+	}
+	if len(bad) > 0 {
+		rc.S.Viol("S12", key+"#marker", pos, strings.Join(bad, "; ")).Sig = firstWords(bad)
+	} else {
+		rc.S.Ok("S12", key+"#marker", pos, "marked when "+markedS)
+	}
+}
+
+func renderFlat2(ns []*ir.Node) []string {
+	return strings.Split(ir.Render(ns), "\n")
+}
+
+// S14: lock typestate of access patterns. (*AP).SetShape silently does nothing on a locked
+// pattern (fin == true), and every pattern handed out by the constructors is locked. A call of
+// SetShape therefore installs the shape only if, on every path to it, the same receiver was
+// unlocked in this function (unlock(), zero(), or a fresh AP{} value) and not locked again.
+// The one accepted exception is listed with its reason.
+var s14Except = map[string]string{
+	"tensor.(*Dense).fix": "reached only when Shape() is nil: a pattern that never received a shape was never locked (constructors lock after setting the shape; zero() unlocks)",
+}
+
+func S14(rc *RC) {
+	rc.S.Declare("S14", "access-pattern lock typestate: every call of the lock-respecting (*AP).SetShape is preceded, on every path in its function, by unlock()/zero()/a fresh AP{} of the same receiver with no lock() in between (otherwise the new shape is silently dropped on a tensor that is already in use)", 4)
+	normRecv := func(x string) string {
+		x = strings.TrimSuffix(x, ".AP")
+		return x
+	}
+	recvOf := func(head, method string) []string {
+		var out []string
+		for i := 0; ; {
+			j := strings.Index(head[i:], method)
+			if j < 0 {
+				break
+			}
+			j += i
+			k := j
+			depth := 0
+			for k > 0 {
+				c := head[k-1]
+				if c == ')' || c == ']' {
+					depth++
+				} else if c == '(' || c == '[' {
+					if depth == 0 {
+						break
+					}
+					depth--
+				} else if depth == 0 && (c == ' ' || c == ',' || c == '=' || c == '!' || c == '&') {
+					break
+				}
+				k--
+			}
+			out = append(out, normRecv(head[k:j]))
+			i = j + len(method)
+		}
+		return out
+	}
+	for _, fi := range rc.P.SortedFuncs() {
+		if fi.Pkg != rc.P.Root || fi.Decl.Body == nil || strings.HasPrefix(fi.File, "sparse") || strings.HasSuffix(fi.File, "_test.go") {
+			continue
+		}
+		if fi.Key == "tensor.(*AP).SetShape" {
+			continue
+		}
+		_, tree := sCanon(rc, fi)
+		if !strings.Contains(ir.Render(tree), ".SetShape(") {
+			continue
+		}
+		pos := rc.P.Pos(fi.Decl.Pos())
+		if why, ok := s14Except[fi.Key]; ok {
+			rc.S.Ok("S14", fi.Key, pos, "accepted: "+why)
+			continue
+		}
+		paths, ok := ir.EnumPaths(tree, 20000)
+		if !ok {
+			rc.S.Undec("S14", fi.Key, pos, "too many paths")
+			continue
+		}
+		var bad []string
+		sites := 0
+		for _, p := range paths {
+			unlocked := map[string]bool{}
+			var lin []*ir.Node
+			for _, st := range p.Steps {
+				lin = append(lin, st)
+				if st.Kind == "loop" || st.Kind == "range" || st.Kind == "switch" {
+					lin = append(lin, flatten(st.Kids)...)
+				}
+			}
+			for _, st := range lin {
+				if st.Kind == "if" || st.Kind == "loop" || st.Kind == "range" || st.Kind == "switch" || st.Kind == "case" {
+					continue
+				}
+				h := st.Head
+				for _, r := range recvOf(h, ".unlock()") {
+					unlocked[r] = true
+				}
+				for _, r := range recvOf(h, ".zero()") {
+					unlocked[r] = true
+				}
+				if (st.Kind == "let" || st.Kind == "store") && (st.Value == "tensor.AP{}" || st.Value == "AP{}") {
+					unlocked[normRecv(st.Target)] = true
+				}
+				for _, r := range recvOf(h, ".SetShape(") {
+					sites++
+					if !unlocked[r] {
+						bad = append(bad, fmt.Sprintf("%s.SetShape(...) at %s is reached with [%s] without unlocking %s first: on a locked pattern the call is a no-op", r, rc.P.Pos(st.Pos), strings.Join(p.Guards, " && "), r))
+					}
+				}
+				for _, r := range recvOf(h, ".lock()") {
+					unlocked[r] = false
+				}
+			}
+		}
+		if len(bad) > 0 {
+			bad = uniq(bad)
+			rc.S.Viol("S14", fi.Key, pos, strings.Join(bad, "\n")).Sig = fmt.Sprintf("%d unlocked-less SetShape path(s)", len(bad))
+		} else if sites > 0 {
+			rc.S.Ok("S14", fi.Key, pos, "SetShape only on a pattern unlocked in this function")
+		}
 	}
 }
